@@ -98,9 +98,9 @@ def lean_obligations(pid):
     if rc != 0:
         out['problems'].append('axiom audit failed to run: ' + log[-500:])
         return out
-    for m in re.finditer(r"'([^']+)' depends on axioms: \[([^\]]*)\]", log):
+    for m in re.finditer(r"'(\S+)' depends on axioms: \[([^\]]*)\]", log):
         out['axioms'][m.group(1)] = [a.strip() for a in m.group(2).split(',') if a.strip()]
-    for m in re.finditer(r"'([^']+)' does not depend on any axioms", log):
+    for m in re.finditer(r"'(\S+)' does not depend on any axioms", log):
         out['axioms'][m.group(1)] = []
     good = 0
     for t in out['theorems']:
